@@ -1,9 +1,14 @@
 package drv
 
 import (
+	"bytes"
 	"encoding/json"
 	"fmt"
 	"net"
+	"os"
+	"path/filepath"
+	"runtime"
+	"sort"
 	"strings"
 	"sync"
 	"time"
@@ -29,6 +34,8 @@ type lcCfg struct {
 	PullRetry  int      `json:"pullRetry"`
 	PullAutoMs int      `json:"pullAutoMs"`
 	Hook       bool     `json:"hook"`
+	Outputs    bool     `json:"outputs"` // HLS, HTTP-TS, FLV and TS recording enabled (C16)
+	Leak       int      `json:"leak"`    // > 0: run that many publish/unpublish cycles and report resource counts
 }
 
 type lcStep struct {
@@ -105,6 +112,7 @@ type lcSession struct {
 	cust   logic.ICustomizePubSessionContext
 	flv    *httpflv.SubSession
 	psPort int
+	done   chan struct{}
 }
 
 type nullRtspObserver struct{}
@@ -147,6 +155,9 @@ func lifecycleDriver(env *Env) error {
 	var wg sync.WaitGroup
 	sem := make(chan struct{}, 12)
 	for i := range scs {
+		if scs[i].Cfg.Leak > 0 {
+			continue // resource counts need a quiet process: run after the others
+		}
 		wg.Add(1)
 		sem <- struct{}{}
 		go func(i int) {
@@ -158,6 +169,14 @@ func lifecycleDriver(env *Env) error {
 		}(i)
 	}
 	wg.Wait()
+	for i := range scs {
+		if scs[i].Cfg.Leak > 0 {
+			time.Sleep(200 * time.Millisecond)
+			var evs []M
+			runLifecycleScenario(scs[i], func(m M) { evs = append(evs, m) })
+			out[i] = evs
+		}
+	}
 	for _, evs := range out {
 		for _, e := range evs {
 			tw.Emit(e)
@@ -258,6 +277,16 @@ func runLifecycleScenario(sc *lcScenario, emitEv func(M)) {
 	stream := fmt.Sprintf("lc%d", sc.Sc)
 	conf := `{"conf_version":"v0.4.1","rtmp":{"enable":false,"gop_num":0},"httpflv":{"enable":false,"gop_num":0},
 	 "log":{"level":5,"filename":"","is_to_stdout":false,"assert_behavior":1}}`
+	outDir := ""
+	if sc.Cfg.Outputs {
+		outDir, _ = os.MkdirTemp("", "lalverif-lc")
+		defer os.RemoveAll(outDir)
+		conf = fmt.Sprintf(`{"conf_version":"v0.4.1","rtmp":{"enable":false,"gop_num":0},"httpflv":{"enable":false,"gop_num":0},
+		 "httpts":{"enable":true,"gop_num":0},
+		 "hls":{"enable":true,"out_path":"%s/hls/","fragment_duration_ms":3000,"fragment_num":6,"delete_threshold":6,"cleanup_mode":0},
+		 "record":{"enable_flv":true,"flv_out_path":"%s/flv/","enable_mpegts":true,"mpegts_out_path":"%s/ts/"},
+		 "log":{"level":5,"filename":"","is_to_stdout":false,"assert_behavior":1}}`, outDir, outDir, outDir)
+	}
 	names := map[string]string{} // lal unique key -> model id
 	var nmu sync.Mutex
 	nameOf := func(id string) string {
@@ -333,6 +362,12 @@ func runLifecycleScenario(sc *lcScenario, emitEv func(M)) {
 		m := &AMsg{Id: i, T: "aud"}
 		return BuildMsg(m, 32, uint32(i*10))
 	}
+	// with the outputs on, every probe is preceded by an AAC sequence header so that the TS remuxer,
+	// the HLS muxer and the recorders carry real data
+	probeHdr := func(i int) base.RtmpMsg {
+		return BuildMsg(&AMsg{Id: i, T: "ash", Ha: 1}, 0, uint32(i*10))
+	}
+
 	tick := uint32(0)
 	emit := func(name, x, ret string) {
 		n, h := drain()
@@ -352,6 +387,20 @@ func runLifecycleScenario(sc *lcScenario, emitEv func(M)) {
 			}
 		}
 		ev["stat"] = M{"exists": st != nil, "listed": listed}
+		if sc.Cfg.Outputs {
+			pipe := []string{}
+			if g := sm.GetGroup("", stream); g != nil {
+				snap := g.VerifSnapshot()
+				for k, v := range map[string]string{"tsRemuxer": "ts", "hlsMuxer": "hls", "recFlv": "recflv", "recTs": "rects", "hook": "hook"} {
+					if snap[k] == true {
+						pipe = append(pipe, v)
+					}
+				}
+			}
+			sort.Strings(pipe)
+			ev["pipe"] = pipe
+			ev["filesOk"] = len(pipe) != 0 || lcFilesFinalised(outDir, stream)
+		}
 		emitEv(ev)
 	}
 	countNotif := func(evn string) int {
@@ -392,12 +441,37 @@ func runLifecycleScenario(sc *lcScenario, emitEv func(M)) {
 				register(x, s)
 				err = sm.OnNewRtmpPubSession(s.rtmp)
 			} else {
-				u, _ := base.ParseRtspUrl("rtsp://127.0.0.1/live/" + stream)
-				s.cmd = rtsp.NewServerCommandSession(nullRtspObserver{}, s.conn, rtsp.ServerAuthConfig{}, false, "")
-				s.rpub = rtsp.NewPubSession(u, s.cmd)
-				s.key = s.rpub.UniqueKey()
-				register(x, s)
-				err = sm.OnNewRtspPubSession(s.rpub)
+				// an RTSP publisher goes through the real per-connection routine of rtsp.Server (command
+				// loop, ANNOUNCE handling, report of the departing session): the ServerManager is its observer
+				srv := rtsp.NewServer("127.0.0.1:0", &lcRtspObserver{sm: sm, onPub: func(p *rtsp.PubSession) {
+					s.rpub = p
+					s.key = p.UniqueKey()
+					register(x, s)
+				}}, rtsp.ServerAuthConfig{})
+				s.done = make(chan struct{})
+				go func() { srv.VerifHandleTcpConnect(s.conn); close(s.done) }()
+				sdpBody := "v=0\r\no=- 0 0 IN IP4 127.0.0.1\r\ns=x\r\nc=IN IP4 127.0.0.1\r\nt=0 0\r\nm=video 0 RTP/AVP 96\r\n" +
+					"a=rtpmap:96 H264/90000\r\na=fmtp:96 packetization-mode=1\r\na=control:streamid=0\r\n"
+				req := fmt.Sprintf("ANNOUNCE rtsp://127.0.0.1/live/%s RTSP/1.0\r\nCSeq: 1\r\nContent-Type: application/sdp\r\nContent-Length: %d\r\n\r\n%s",
+					stream, len(sdpBody), sdpBody)
+				s.conn.Feed([]byte(req))
+				// accepted: a 200 response is written; refused: the routine ends (and reports what it reports)
+				accepted := false
+				waitFor(3*time.Second, func() bool {
+					if b, _ := s.conn.Drain(); bytes.Contains(b, []byte("200 OK")) {
+						accepted = true
+						return true
+					}
+					select {
+					case <-s.done:
+						return true
+					default:
+						return false
+					}
+				})
+				if !accepted {
+					err = base.ErrDupInStream
+				}
 			}
 			ret := "ok"
 			if err != nil {
@@ -412,7 +486,11 @@ func runLifecycleScenario(sc *lcScenario, emitEv func(M)) {
 			if s.kind == "rtmpPub" {
 				sm.OnDelRtmpPubSession(s.rtmp)
 			} else {
-				sm.OnDelRtspPubSession(s.rpub)
+				s.conn.Close() // the peer hangs up: the server's routine reports the departure
+				select {
+				case <-s.done:
+				case <-time.After(3 * time.Second):
+				}
 			}
 			emit("DelPub", x, "ok")
 		case "AddCust":
@@ -487,6 +565,14 @@ func runLifecycleScenario(sc *lcScenario, emitEv func(M)) {
 			case base.ErrorCodeSessionNotFound:
 				ret = "nosession"
 			}
+			if ret == "ok" && kind == "rtspPub" {
+				if s := sess[x]; s != nil && s.done != nil {
+					select {
+					case <-s.done:
+					case <-time.After(3 * time.Second):
+					}
+				}
+			}
 			if ret == "ok" && kind == "psPub" {
 				// its own goroutine tears it down: wait until the group has no GB28181 input any more
 				waitFor(2*time.Second, func() bool {
@@ -499,16 +585,23 @@ func runLifecycleScenario(sc *lcScenario, emitEv func(M)) {
 			s := sess[x]
 			ret := "ok"
 			msg := probeMsg(i + 1)
-			switch s.kind {
-			case "custPub":
-				if err := s.cust.FeedRtmpMsg(msg); err != nil {
-					ret = "rejected"
-				}
-			default:
-				// network / GB28181 inputs deliver through the group the session was attached to
-				g := sm.GetGroup("", stream)
-				if g != nil {
-					g.OnReadRtmpAvMsg(msg)
+			msgs := []base.RtmpMsg{msg}
+			if sc.Cfg.Outputs {
+				am := &AMsg{Id: i + 1, T: "aud", Ha: 1}
+				msgs = []base.RtmpMsg{probeHdr(i + 1), BuildMsg(am, 64, uint32((i+1)*10))}
+			}
+			for _, msg := range msgs {
+				switch s.kind {
+				case "custPub":
+					if err := s.cust.FeedRtmpMsg(msg); err != nil {
+						ret = "rejected"
+					}
+				default:
+					// network / GB28181 inputs deliver through the group the session was attached to
+					g := sm.GetGroup("", stream)
+					if g != nil {
+						g.OnReadRtmpAvMsg(msg)
+					}
 				}
 			}
 			n, h := drain()
@@ -603,11 +696,17 @@ func runLifecycleScenario(sc *lcScenario, emitEv func(M)) {
 			origin.mu.Unlock()
 			waitFor(3*time.Second, func() bool { return countNotif("pull_stop") > 0 })
 			emit("PullEnd", "", "ok")
+		case "Shutdown":
+			sm.Dispose()
+			emit("Shutdown", "", "ok")
 		case "Advance":
 			time.Sleep(time.Duration(autoMs)*time.Millisecond + 60*time.Millisecond)
 			lastStep = time.Now()
 			emit("Advance", "", "ok")
 		}
+	}
+	if sc.Cfg.Leak > 0 {
+		lcLeakCycles(sm, stream, sc.Cfg.Leak, emitEv)
 	}
 	if inconclusive {
 		emitEv(M{"ev": "inconclusive", "sc": sc.Sc})
@@ -624,3 +723,111 @@ func runLifecycleScenario(sc *lcScenario, emitEv func(M)) {
 }
 
 var _ = net.ErrClosed
+
+
+// lcFilesFinalised reports whether, with no input attached, every recording parses completely and
+// the live HLS playlist (if any) carries the end marker.
+func lcFilesFinalised(dir, stream string) bool {
+	flvs, _ := filepath.Glob(filepath.Join(dir, "flv", "*.flv"))
+	for _, f := range flvs {
+		b, err := os.ReadFile(f)
+		if err != nil || len(b) < 13 || !bytes.Equal(b[:3], []byte("FLV")) {
+			return false
+		}
+		pos := 13
+		for pos < len(b) {
+			if pos+11 > len(b) {
+				return false
+			}
+			n := int(b[pos+1])<<16 | int(b[pos+2])<<8 | int(b[pos+3])
+			if pos+11+n+4 > len(b) {
+				return false
+			}
+			pos += 11 + n + 4
+		}
+	}
+	tss, _ := filepath.Glob(filepath.Join(dir, "ts", "*.ts"))
+	for _, f := range tss {
+		st, err := os.Stat(f)
+		if err != nil || st.Size()%188 != 0 {
+			return false
+		}
+	}
+	if b, err := os.ReadFile(filepath.Join(dir, "hls", stream, "playlist.m3u8")); err == nil {
+		if !bytes.Contains(b, []byte("#EXT-X-ENDLIST")) {
+			return false
+		}
+	}
+	return true
+}
+
+func lcCountFds() int {
+	es, err := os.ReadDir("/proc/self/fd")
+	if err != nil {
+		return 0
+	}
+	return len(es)
+}
+
+// lcLeakCycles runs publish / subscribe / unpublish cycles with everything enabled and reports
+// goroutine and descriptor counts after an early and after the last cycle (monotone-leak criterion).
+func lcLeakCycles(sm *logic.ServerManager, stream string, n int, emitEv func(M)) {
+	var g1, fd1, n1 int
+	tick := uint32(1000)
+	for i := 1; i <= n; i++ {
+		name := fmt.Sprintf("%s-leak", stream)
+		pub := rtmp.NewServerSession(nullObserver{}, NewMemConn("lp"))
+		pub.VerifSetIdentity("live", name, "", true)
+		if sm.OnNewRtmpPubSession(pub) != nil {
+			break
+		}
+		subc := NewMemConn("ls")
+		sub := rtmp.NewServerSession(nullObserver{}, subc)
+		sub.VerifSetIdentity("live", name, "", false)
+		sm.OnNewRtmpSubSession(sub)
+		if g := sm.GetGroup("", name); g != nil {
+			g.OnReadRtmpAvMsg(BuildMsg(&AMsg{Id: 1, T: "ash", Ha: 1}, 0, 0))
+			for k := 0; k < 5; k++ {
+				g.OnReadRtmpAvMsg(BuildMsg(&AMsg{Id: 2 + k, T: "aud", Ha: 1}, 64, uint32(k*23)))
+			}
+		}
+		sm.OnDelRtmpSubSession(sub)
+		sm.OnDelRtmpPubSession(pub)
+		tick++
+		sm.VerifTick(tick) // removes the now empty group
+		if i == n/4 || i == n {
+			time.Sleep(30 * time.Millisecond)
+			runtime.GC()
+			time.Sleep(30 * time.Millisecond)
+			if i == n/4 {
+				g1, fd1, n1 = runtime.NumGoroutine(), lcCountFds(), i
+			} else {
+				emitEv(M{"ev": "Leak", "n1": n1, "n2": i, "g1": g1, "g2": runtime.NumGoroutine(), "fd1": fd1, "fd2": lcCountFds()})
+			}
+		}
+	}
+}
+
+
+// lcRtspObserver hands the callbacks of rtsp.Server to the ServerManager, noting the pub session.
+type lcRtspObserver struct {
+	sm    *logic.ServerManager
+	onPub func(p *rtsp.PubSession)
+}
+
+func (o *lcRtspObserver) OnNewRtspSessionConnect(session *rtsp.ServerCommandSession) {
+	o.sm.OnNewRtspSessionConnect(session)
+}
+func (o *lcRtspObserver) OnDelRtspSession(session *rtsp.ServerCommandSession) { o.sm.OnDelRtspSession(session) }
+func (o *lcRtspObserver) OnNewRtspPubSession(session *rtsp.PubSession) error {
+	o.onPub(session)
+	return o.sm.OnNewRtspPubSession(session)
+}
+func (o *lcRtspObserver) OnNewRtspSubSessionDescribe(session *rtsp.SubSession) (ok bool, sdp []byte) {
+	return o.sm.OnNewRtspSubSessionDescribe(session)
+}
+func (o *lcRtspObserver) OnNewRtspSubSessionPlay(session *rtsp.SubSession) error {
+	return o.sm.OnNewRtspSubSessionPlay(session)
+}
+func (o *lcRtspObserver) OnDelRtspPubSession(session *rtsp.PubSession) { o.sm.OnDelRtspPubSession(session) }
+func (o *lcRtspObserver) OnDelRtspSubSession(session *rtsp.SubSession) { o.sm.OnDelRtspSubSession(session) }
